@@ -10,8 +10,8 @@ for d in seeded/*/; do
   [ -n "$1" ] && [[ "$id" != $1* ]] && continue
   if ! echo " $claimed " | grep -q " $prop "; then echo "$id not-claimed"; echo "not claimed" > $d/result.txt; continue; fi
   if ! git -C /repo diff --quiet; then echo "REFUSING: /repo dirty"; exit 3; fi
-  git -C /repo apply $d/patch.diff || { echo "$id APPLY-FAILED"; continue; }
-  out=$(bin/nriverif check --property $prop 2>&1); rc=$?
+  git -C /repo apply /verif/${d}patch.diff || { echo "$id APPLY-FAILED"; continue; }
+  out=$(${NRIVERIF:-bin/nriverif} check --property $prop 2>&1); rc=$?
   git -C /repo checkout -- .
   n=$(echo "$out" | grep -c "^VIOLATION")
   first=$(echo "$out" | grep "^VIOLATION" | head -3 | sed 's/.*obligation=//' | cut -c1-160 | tr '\n' ';')
